@@ -30,7 +30,8 @@ RULE = ('per extended-community kind (route-target/route-origin in 2-octet-AS, I
         '65535:65535, random; large communities with fields to 2^32-1. Non-trivial = a field >= 2^16, an IPv4 '
         'administrator, a non-zero flag or a well-known name; distinct by (kind, octets).')
 ASSUMPTIONS = [
-    'context: Established session whose peer advertised the 4-octet-AS capability',
+    'context: Established session whose peer advertised the 4-octet-AS capability; besides the default configuration also a '
+    'local speaker configured without that capability, and an iBGP session with [bgp] rib on',
     'don\'t-care bits are masked: low nibble of the ESI-label field; a 4-octet-AS route-target/origin whose AS fits 16 bits '
     'may come back in the 2-octet-AS type',
     'dmzlink-bw is compared in the integer reading the decoder renders; traffic-rate uses finite non-negative single-precision values',
@@ -82,13 +83,23 @@ def equivalent(kind, want, got):
 _sim = {}
 
 
-def session():
-    """one Established session per process is enough: json_to_bin has no side effect on the wire"""
-    if 'sim' not in _sim:
-        sim = Sim(hold_time=0)
+SESSION_CONFIGS = {
+    'default': {},
+    # the local speaker is configured without the 4-octet-AS capability, the peer still advertises it
+    'local-2-octet': {'four_bytes_as': False},
+    'ibgp-rib': {'remote_as': 65001, 'rib': True},
+}
+
+
+def session(cfg='default'):
+    """one Established session at a time (a new simulator invalidates the previous one); json_to_bin has no side effect
+    on the wire, so a session is reused as long as the configuration stays the same"""
+    if _sim.get('cfg') != cfg:
+        sim = Sim(hold_time=0, **SESSION_CONFIGS[cfg])
         ss.establish(sim, caps=[rc.cap_mp(1, 1), rc.cap(2)], as4=True)
         assert sim.state == 'ESTABLISHED'
         _sim['sim'] = sim
+        _sim['cfg'] = cfg
     return _sim['sim']
 
 
@@ -115,7 +126,7 @@ def check(case):
     fam, kind, octets = case['fam'], case['kind'], bytes.fromhex(case['octets'])
     code_ = {'ext': 16, 'std': 8, 'large': 32}[fam]
     parser = {'ext': ExtCommunity, 'std': Community, 'large': LargeCommunity}[fam]
-    sim = session()
+    sim = session(case.get('cfg', 'default'))
     try:
         texts = parser.parse(octets)
     except Exception as e:
@@ -198,6 +209,12 @@ def nontrivial(case):
 def shards(tier):
     per = 120 if tier == 'quick' else 12000
     out = [{'name': 'ext-' + k, 'kind': 'ext', 'ext': k, 'examples': per, 'hypothesis': True} for k in sorted(KINDS)]
+    # the same kinds on sessions with another configuration (fewer examples each)
+    for cfg in sorted(SESSION_CONFIGS):
+        if cfg != 'default':
+            out += [{'name': 'ext-%s-%s' % (k, cfg), 'kind': 'ext', 'ext': k, 'cfg': cfg, 'examples': max(40, per // 4), 'hypothesis': True}
+                    for k in sorted(KINDS)]
+            out.append({'name': 'std-' + cfg, 'kind': 'std', 'cfg': cfg, 'examples': 300 if tier == 'quick' else 20000, 'hypothesis': True})
     out.append({'name': 'std', 'kind': 'std', 'examples': 1500 if tier == 'quick' else 200000, 'hypothesis': True})
     out.append({'name': 'large', 'kind': 'large', 'examples': 600 if tier == 'quick' else 60000, 'hypothesis': True})
     return out
@@ -207,8 +224,10 @@ def run_shard(spec, seed, col, tier):
     strat = ext_case(spec['ext']) if spec['kind'] == 'ext' else (std_case if spec['kind'] == 'std' else large_case)
 
     def body(case):
+        if spec.get('cfg'):
+            case = dict(case, cfg=spec['cfg'])
         res = check(case)
-        col.case(case, nontrivial(case), labels=['%s:%s' % (case['fam'], case['kind'])])
+        col.case(case, nontrivial(case), labels=['%s:%s' % (case['fam'], case['kind']), 'session:' + case.get('cfg', 'default')])
         for sig, detail in res:
             col.fail(sig, case, detail)
     hyp_run(col, strat, body, seed, spec['examples'])
